@@ -57,3 +57,17 @@ Example C13_example :
                 (concat (repeat [0; 1; 2] 13)) in
   idle_count Z (threads Z Z s') = 0 /\ lock Z Z s' = None /\ disk Z Z s' = 3%Z.
 Proof. vm_compute. repeat split. Qed.
+
+(** the same, for whispertool's own Open / Sync (Model/Handle.v): the "disk" is the state a fresh
+    Open reads ([reopen]), Sync stores the live handle ([sync]); sessions are arbitrary sequences of
+    updates and Syncs.  Every schedule of every set of sessions leaves what the sessions leave when
+    run one after the other in lock-acquisition order. *)
+From WT Require Import Base.Wrap Base.ListX Model.Time Model.Ring Model.Update Model.Handle.
+Theorem C13_whisper_sessions_serializable sched (s : sys handle handle) acq d0 :
+  excl handle handle s ->
+  pending handle handle (fun h _ => sync h) s = sessions_of handle handle reopen (fun h _ => sync h) acq d0 ->
+  let '(s', acq') := run_acq handle handle reopen (fun h _ => sync h) s acq sched in
+  excl handle handle s' /\
+  pending handle handle (fun h _ => sync h) s' = sessions_of handle handle reopen (fun h _ => sync h) acq' d0.
+Proof. exact (run_serializable handle handle reopen (fun h _ => sync h) sched s acq d0). Qed.
+Print Assumptions C13_whisper_sessions_serializable.
